@@ -81,170 +81,177 @@ def rule_linear(prog, res, rule="R-LIN"):
     col = Collector()
     an = L.Analysis(prog, invariant=invariant, on_store=col.on_store, on_sub=col.on_sub)
     col.an = an
-    # ---- GRANT ------------------------------------------------------------
-    f = prog.func("next_write")
-    res.touched(f)
-    pn = {p["n"]: p for p in f.params}
-    # parameter roles by type: the size, the two out-parameters
-    size_p = [p for p in f.params if not p.get("pd") and not p.get("r")]
-    outs = [p for p in f.params if p.get("pd") and not p.get("r")]
-    if len(size_p) != 1 or len(outs) != 2:
-        raise AnalysisBroken("next_write: parameter roles changed")
-    beg_p = [p for p in outs if "long" in p["t"] or "size_t" in p["t"]]
-    wrap_p = [p for p in outs if p not in beg_p]
-    if len(beg_p) != 1 or len(wrap_p) != 1:
-        raise AnalysisBroken("next_write: out-parameters changed")
-    rets = an.run(f, L.State())
-    granted = 0
-    bad = []
-    for rv, st in rets:
-        if rv is None or (L.is_const(rv) and rv.get(L.ONE, 0) == 0):
-            continue
-        granted += 1
-        head = an.read(st, "self->head")
-        cap = an.read(st, "self->capacity")
-        n = an.read(st, "next_write:%s" % size_p[0]["n"])
-        beg = st.cells.get("*next_write:%s" % beg_p[0]["n"])
-        wrap = st.cells.get("*next_write:%s" % wrap_p[0]["n"], L.lconst(0))
-        tails = [v for k, v in st.cells.items() if "holds.pos[" in k]
-        if beg is None or len(tails) != 1:
-            bad.append(("grant without a begin offset / without reading the slowest reader's position", st))
-            continue
-        tail = tails[0]
-        endr = L.ladd(beg, n)
-        lt = lambda a, b: ("le", L.ladd(L.lsub(a, b), L.lconst(1)))
-        le = lambda a, b: ("le", L.lsub(a, b))
-        eq = lambda a, b: ("eq", L.lsub(a, b))
-        ok = some(st,
-                  [lt(head, tail), le(head, beg), le(endr, tail)],
-                  [le(tail, head), le(head, beg), le(endr, cap)],
-                  [le(tail, head), le(endr, tail)],
-                  [eq(tail, head), eq(wrap, L.lconst(1)), le(endr, cap)])
-        if not ok:
-            bad.append(("the granted region [beg, beg+n) = [%s, %s) is not inside the free space (head=%s, slowest reader at %s)"
-                        % (_pretty(L.lshow(beg)), _pretty(L.lshow(endr)), _pretty(L.lshow(head)), _pretty(L.lshow(tail))), st))
-        if not some(st, [eq(beg, head)], [eq(beg, L.lconst(0))]):
-            bad.append(("a grant begins at %s, neither at head nor at 0" % _pretty(L.lshow(beg)), st))
-    inst = "next_write: every grant lies in the free space"
-    if granted == 0:
-        raise AnalysisBroken("next_write never grants")
-    if bad:
-        for k, (msg, st) in enumerate(bad):
-            res.fail(rule, inst, "%s|next_write|grant" % rule, f.loc(),
-                     "next_write: %s: the writer is handed memory a reader has not consumed, or memory outside the buffer" % msg,
-                     {"constraints": [_pretty("%s %s" % (op, L.lshow(l))) for op, l in st.cons][-12:]})
-    else:
-        res.oblige(rule, inst, True, "%d granting abstract state(s), each entails one free-space case" % granted, f.loc())
-    # ---- channel_write_map ----------------------------------------------
-    g = prog.func("channel_write_map")
-    res.touched(g)
-    col.maps = []
-    rets = an.run(g, L.State())
-    inst = "channel_write_map: mapped == beg + nbytes and the result is data + beg"
-    okm = bool(col.maps)
-    why = ""
-    for f_, e, val, st in col.maps:
-        if f_.name != g.name:
-            continue
-        begv = st.cells.get("channel_write_map:beg")
-        nv = an.read(st, "channel_write_map:nbytes")
-        if begv is None or not st.entails_eq(L.lsub(val, L.ladd(begv, nv))):
-            okm = False
-            why = "mapped = %s but the region handed out is [beg, beg + nbytes) with beg = %s" % (_pretty(L.lshow(val)), _pretty(L.lshow(begv or {})))
-    for rv, st in rets:
-        if rv is None or (L.is_const(rv) and rv.get(L.ONE, 0) == 0):
-            continue
-        begv = st.cells.get("channel_write_map:beg")
-        base = L.lvar("ptr:self->data")
-        if begv is None or not st.entails_eq(L.lsub(rv, L.ladd(base, begv))):
-            okm = False
-            why = why or "the pointer returned is %s, not data + beg" % _pretty(L.lshow(rv))
-        head = an.read(st, "self->head")
-        if not st.entails_eq(L.lsub(head, begv or {})):
-            okm = False
-            why = why or "after the mapping head (%s) is not the beginning of the mapped region (%s): channel_abort_write / the next grant start from the wrong offset" % (_pretty(L.lshow(head)), _pretty(L.lshow(begv or {})))
-    if okm:
-        res.oblige(rule, inst, True, "%d store(s) to mapped, %d non-null return state(s)" % (len(col.maps), len(rets)), g.loc())
-    else:
-        res.fail(rule, inst, "%s|channel_write_map|map" % rule, g.loc(), "channel_write_map: " + (why or "no store to mapped found"))
-    # ---- channel_read_map ------------------------------------------------
-    h = prog.func("channel_read_map")
-    res.touched(h)
-    # the local pointer to this reader's hold position: defined from holds.pos
-    hold_ptr_id = None
-    for b_, i_, s_ in h.all_stmts():
-        for lv, op, rhs, w in ir.writes_of(s_):
-            if lv.get("k") == "var" and lv.get("pd") and isinstance(rhs, dict) and \
-                    any(y.get("k") == "mem" and y.get("f") == "pos" and (ir.ap(y) or "").endswith("holds.pos") for y in ir.walk(rhs)):
-                hold_ptr_id = lv["id"]
-    rets = an.run(h, L.State())
-    inst = "channel_read_map: a non-empty slice is [hold position, head) or [hold position, high) and reader->pos records its end"
-    nonempty = 0
-    badr = None
-    for rv, st in rets:
-        nb = st.cells.get("channel_read_map:nbytes")
-        out = st.cells.get("channel_read_map:out")
-        if nb is None or out is None:
-            continue
-        if st.entails_eq(nb):
-            continue
-        nonempty += 1
-        base = L.lvar("ptr:self->data")
-        off = L.lsub(out, base)
-        end = L.ladd(off, nb)
-        head = an.read(st, "self->head")
-        high = an.read(st, "self->high")
-        rpos = an.read(st, "reader->pos")
-        hk = st.ptr.get(("channel_read_map", hold_ptr_id)) if hold_ptr_id is not None else None
-        holdpos = [st.cells[hk]] if hk in st.cells else []
-        eq = lambda a, b: ("eq", L.lsub(a, b))
-        ok = some(st, [eq(end, head), eq(rpos, head)], [eq(end, high), eq(rpos, L.lconst(0))])
-        ok = ok and len(holdpos) == 1 and st.entails_eq(L.lsub(off, holdpos[0]))
-        if not ok:
-            badr = "a slice [%s, %s) is returned with reader->pos = %s, hold position %s (head=%s, high=%s)" % (
-                _pretty(L.lshow(off)), _pretty(L.lshow(end)), _pretty(L.lshow(rpos)),
-                _pretty(L.lshow(holdpos[0])) if holdpos else "?", _pretty(L.lshow(head)), _pretty(L.lshow(high)))
-    if nonempty == 0:
-        raise AnalysisBroken("channel_read_map never returns data")
-    if badr:
-        res.fail(rule, inst, "%s|channel_read_map|slice" % rule, h.loc(),
-                 "channel_read_map: %s: the reader is handed bytes that are not exactly the committed, unread bytes of that lap" % badr)
-    else:
-        res.oblige(rule, inst, True, "%d non-empty return state(s)" % nonempty, h.loc())
-    # ---- channel_read_unmap ------------------------------------------------
-    u = prog.func("channel_read_unmap")
-    res.touched(u)
-    an.run(u, L.State())
-    for fn_ in ("channel_write_unmap", "channel_abort_write"):
-        an.run(prog.func(fn_), L.State())
-        res.touched(prog.func(fn_))
-    if an.truncated:
-        raise AnalysisBroken("linear analysis truncated")
-    # ---- INV -----------------------------------------------------------------
-    for (fn, line, key), oks in sorted(col.stores.items()):
-        inst = "%s: store to %s keeps it within [0, capacity] (line %s)" % (fn, key, line)
-        ff = prog.func(fn)
-        if all(oks):
-            res.oblige(rule, inst, True, "%d abstract state(s)" % len(oks), "%s:%s" % (ff.file, line))
+    def sec_grant():
+        # ---- GRANT ------------------------------------------------------------
+        f = prog.func("next_write")
+        res.touched(f)
+        pn = {p["n"]: p for p in f.params}
+        # parameter roles by type: the size, the two out-parameters
+        size_p = [p for p in f.params if not p.get("pd") and not p.get("r")]
+        if len(size_p) > 1:   # the byte count is the size_t one (an index parameter may have been added)
+            size_p = [p for p in size_p if "long" in p.get("t", "") or "size_t" in p.get("t", "")]
+        outs = [p for p in f.params if p.get("pd") and not p.get("r")]
+        if len(size_p) != 1 or len(outs) != 2:
+            raise AnalysisBroken("next_write: parameter roles changed")
+        beg_p = [p for p in outs if "long" in p["t"] or "size_t" in p["t"]]
+        wrap_p = [p for p in outs if p not in beg_p]
+        if len(beg_p) != 1 or len(wrap_p) != 1:
+            raise AnalysisBroken("next_write: out-parameters changed")
+        rets = an.run(f, L.State())
+        granted = 0
+        bad = []
+        for rv, st in rets:
+            if rv is None or (L.is_const(rv) and rv.get(L.ONE, 0) == 0):
+                continue
+            granted += 1
+            head = an.read(st, "self->head")
+            cap = an.read(st, "self->capacity")
+            n = an.read(st, "next_write:%s" % size_p[0]["n"])
+            beg = st.cells.get("*next_write:%s" % beg_p[0]["n"])
+            wrap = st.cells.get("*next_write:%s" % wrap_p[0]["n"], L.lconst(0))
+            tails = [v for k, v in st.cells.items() if "holds.pos[" in k]
+            if beg is None or len(tails) != 1:
+                bad.append(("grant without a begin offset / without reading the slowest reader's position", st))
+                continue
+            tail = tails[0]
+            endr = L.ladd(beg, n)
+            lt = lambda a, b: ("le", L.ladd(L.lsub(a, b), L.lconst(1)))
+            le = lambda a, b: ("le", L.lsub(a, b))
+            eq = lambda a, b: ("eq", L.lsub(a, b))
+            ok = some(st,
+                      [lt(head, tail), le(head, beg), le(endr, tail)],
+                      [le(tail, head), le(head, beg), le(endr, cap)],
+                      [le(tail, head), le(endr, tail)],
+                      [eq(tail, head), eq(wrap, L.lconst(1)), le(endr, cap)])
+            if not ok:
+                bad.append(("the granted region [beg, beg+n) = [%s, %s) is not inside the free space (head=%s, slowest reader at %s)"
+                            % (_pretty(L.lshow(beg)), _pretty(L.lshow(endr)), _pretty(L.lshow(head)), _pretty(L.lshow(tail))), st))
+            if not some(st, [eq(beg, head)], [eq(beg, L.lconst(0))]):
+                bad.append(("a grant begins at %s, neither at head nor at 0" % _pretty(L.lshow(beg)), st))
+        inst = "next_write: every grant lies in the free space"
+        if granted == 0:
+            raise AnalysisBroken("next_write never grants")
+        if bad:
+            for k, (msg, st) in enumerate(bad):
+                res.fail(rule, inst, "%s|next_write|grant" % rule, f.loc(),
+                         "next_write: %s: the writer is handed memory a reader has not consumed, or memory outside the buffer" % msg,
+                         {"constraints": [_pretty("%s %s" % (op, L.lshow(l))) for op, l in st.cons][-12:]})
         else:
-            res.fail(rule, inst, "%s|%s|inv|%s" % (rule, fn, key), "%s:%s" % (ff.file, line),
-                     "%s can store a value outside [0, capacity] into the cursor %s: later arithmetic on it leaves the buffer" % (fn, key))
-    # ---- SUB --------------------------------------------------------------------
-    proven = 0
-    for (fn, text), oks in sorted(col.subs.items()):
-        if all(oks):
-            proven += 1
-            res.oblige(rule, "%s: %s does not wrap" % (fn, text), True, "%d abstract state(s)" % len(oks), prog.func(fn).loc())
-        elif (fn, text) in SUB_PROVEN:
-            res.fail(rule, "%s: %s does not wrap" % (fn, text), "%s|%s|sub|%s" % (rule, fn, text), prog.func(fn).loc(),
-                     "%s: the unsigned subtraction %s is no longer guarded against wrapping around (it was proven non-negative on the reference tree)" % (fn, text))
+            res.oblige(rule, inst, True, "%d granting abstract state(s), each entails one free-space case" % granted, f.loc())
+    def sec_write_map():
+        # ---- channel_write_map ----------------------------------------------
+        g = prog.func("channel_write_map")
+        res.touched(g)
+        col.maps = []
+        rets = an.run(g, L.State())
+        inst = "channel_write_map: mapped == beg + nbytes and the result is data + beg"
+        okm = bool(col.maps)
+        why = ""
+        for f_, e, val, st in col.maps:
+            if f_.name != g.name:
+                continue
+            begv = st.cells.get("channel_write_map:beg")
+            nv = an.read(st, "channel_write_map:nbytes")
+            if begv is None or not st.entails_eq(L.lsub(val, L.ladd(begv, nv))):
+                okm = False
+                why = "mapped = %s but the region handed out is [beg, beg + nbytes) with beg = %s" % (_pretty(L.lshow(val)), _pretty(L.lshow(begv or {})))
+        for rv, st in rets:
+            if rv is None or (L.is_const(rv) and rv.get(L.ONE, 0) == 0):
+                continue
+            begv = st.cells.get("channel_write_map:beg")
+            base = L.lvar("ptr:self->data")
+            if begv is None or not st.entails_eq(L.lsub(rv, L.ladd(base, begv))):
+                okm = False
+                why = why or "the pointer returned is %s, not data + beg" % _pretty(L.lshow(rv))
+            head = an.read(st, "self->head")
+            if not st.entails_eq(L.lsub(head, begv or {})):
+                okm = False
+                why = why or "after the mapping head (%s) is not the beginning of the mapped region (%s): channel_abort_write / the next grant start from the wrong offset" % (_pretty(L.lshow(head)), _pretty(L.lshow(begv or {})))
+        if okm:
+            res.oblige(rule, inst, True, "%d store(s) to mapped, %d non-null return state(s)" % (len(col.maps), len(rets)), g.loc())
         else:
-            res.notes.append("R-LIN/SUB: %s: %s not proven non-negative by the linear domain (depends on lap relations)" % (fn, text))
-    rule_cursor_cmp(prog, res, rule)
-    rule_reader_min(prog, res, rule)
-    rule_available(prog, res, rule)
-    rule_reader_ops(prog, res, rule)
-    rule_writer_ops(prog, res, rule)
+            res.fail(rule, inst, "%s|channel_write_map|map" % rule, g.loc(), "channel_write_map: " + (why or "no store to mapped found"))
+    def sec_read_map():
+        # ---- channel_read_map ------------------------------------------------
+        h = prog.func("channel_read_map")
+        res.touched(h)
+        # the local pointer to this reader's hold position: defined from holds.pos
+        hold_ptr_id = None
+        for b_, i_, s_ in h.all_stmts():
+            for lv, op, rhs, w in ir.writes_of(s_):
+                if lv.get("k") == "var" and lv.get("pd") and isinstance(rhs, dict) and \
+                        any(y.get("k") == "mem" and y.get("f") == "pos" and (ir.ap(y) or "").endswith("holds.pos") for y in ir.walk(rhs)):
+                    hold_ptr_id = lv["id"]
+        rets = an.run(h, L.State())
+        inst = "channel_read_map: a non-empty slice is [hold position, head) or [hold position, high) and reader->pos records its end"
+        nonempty = 0
+        badr = None
+        for rv, st in rets:
+            nb = st.cells.get("channel_read_map:nbytes")
+            out = st.cells.get("channel_read_map:out")
+            if nb is None or out is None:
+                continue
+            if st.entails_eq(nb):
+                continue
+            nonempty += 1
+            base = L.lvar("ptr:self->data")
+            off = L.lsub(out, base)
+            end = L.ladd(off, nb)
+            head = an.read(st, "self->head")
+            high = an.read(st, "self->high")
+            rpos = an.read(st, "reader->pos")
+            hk = st.ptr.get(("channel_read_map", hold_ptr_id)) if hold_ptr_id is not None else None
+            holdpos = [st.cells[hk]] if hk in st.cells else []
+            eq = lambda a, b: ("eq", L.lsub(a, b))
+            ok = some(st, [eq(end, head), eq(rpos, head)], [eq(end, high), eq(rpos, L.lconst(0))])
+            ok = ok and len(holdpos) == 1 and st.entails_eq(L.lsub(off, holdpos[0]))
+            if not ok:
+                badr = "a slice [%s, %s) is returned with reader->pos = %s, hold position %s (head=%s, high=%s)" % (
+                    _pretty(L.lshow(off)), _pretty(L.lshow(end)), _pretty(L.lshow(rpos)),
+                    _pretty(L.lshow(holdpos[0])) if holdpos else "?", _pretty(L.lshow(head)), _pretty(L.lshow(high)))
+        if nonempty == 0:
+            raise AnalysisBroken("channel_read_map never returns data")
+        if badr:
+            res.fail(rule, inst, "%s|channel_read_map|slice" % rule, h.loc(),
+                     "channel_read_map: %s: the reader is handed bytes that are not exactly the committed, unread bytes of that lap" % badr)
+        else:
+            res.oblige(rule, inst, True, "%d non-empty return state(s)" % nonempty, h.loc())
+    def sec_read_unmap():
+        # ---- channel_read_unmap ------------------------------------------------
+        u = prog.func("channel_read_unmap")
+        res.touched(u)
+        an.run(u, L.State())
+        for fn_ in ("channel_write_unmap", "channel_abort_write"):
+            an.run(prog.func(fn_), L.State())
+            res.touched(prog.func(fn_))
+        if an.truncated:
+            raise AnalysisBroken("linear analysis truncated")
+    def sec_inv():
+        # ---- INV -----------------------------------------------------------------
+        for (fn, line, key), oks in sorted(col.stores.items()):
+            inst = "%s: store to %s keeps it within [0, capacity] (line %s)" % (fn, key, line)
+            ff = prog.func(fn)
+            if all(oks):
+                res.oblige(rule, inst, True, "%d abstract state(s)" % len(oks), "%s:%s" % (ff.file, line))
+            else:
+                res.fail(rule, inst, "%s|%s|inv|%s" % (rule, fn, key), "%s:%s" % (ff.file, line),
+                         "%s can store a value outside [0, capacity] into the cursor %s: later arithmetic on it leaves the buffer" % (fn, key))
+    def sec_sub():
+        # ---- SUB --------------------------------------------------------------------
+        proven = 0
+        for (fn, text), oks in sorted(col.subs.items()):
+            if all(oks):
+                proven += 1
+                res.oblige(rule, "%s: %s does not wrap" % (fn, text), True, "%d abstract state(s)" % len(oks), prog.func(fn).loc())
+            elif (fn, text) in SUB_PROVEN:
+                res.fail(rule, "%s: %s does not wrap" % (fn, text), "%s|%s|sub|%s" % (rule, fn, text), prog.func(fn).loc(),
+                         "%s: the unsigned subtraction %s is no longer guarded against wrapping around (it was proven non-negative on the reference tree)" % (fn, text))
+            else:
+                res.notes.append("R-LIN/SUB: %s: %s not proven non-negative by the linear domain (depends on lap relations)" % (fn, text))
+    for sec in (sec_grant, sec_write_map, sec_read_map, sec_read_unmap, sec_inv, sec_sub):
+        res.guard(sec)
+    for sub in (rule_cursor_cmp, rule_reader_min, rule_available, rule_reader_ops, rule_writer_ops):
+        res.guard(sub, prog, res, rule)
     return an
 
 
